@@ -247,6 +247,7 @@ pub fn run_plan(plan: &Plan) -> RunOut {
         let (out, label) = tracker_body(step, plan);
         w.tracker.script.push((*lat, out, label));
     }
+    w.tracker.repeat_latency = 250;
     world::install(w);
     let mut hk = Rng64::sub(plan.seed, "hasher-keys");
     install_hooks((hk.next_u64(), hk.next_u64()));
